@@ -84,6 +84,26 @@ def variants(text, max_per_program=60):
                                 emit(f"anon{j}", i, _rule(head, body[:j] + [re.sub(r"\b" + v + r"\b", "_", body[j])] + body[j + 1:]))
                     elif b.sign == Sign.Negation:
                         emit(f"negdrop{j}", i, _rule(head, body[:j] + ["not not " + body[j][4:]] + body[j + 1:]))
+                if b.ast_type == ASTType.Literal and b.atom.ast_type == ASTType.Comparison and len(b.atom.guards) == 1:
+                    cmp_txt = str(b.atom)
+                    if b.sign == Sign.NoSign:
+                        emit(f"dnegcmp{j}", i, _rule(head, body[:j] + ["not not " + cmp_txt] + body[j + 1:]))
+                        neg = {"<": ">=", "<=": ">", ">": "<=", ">=": "<", "=": "!=", "!=": "="}
+                        m = re.match(r"^(.*?)\s(<=|>=|!=|<|>|=)\s(.*)$", cmp_txt)
+                        if m:
+                            emit(f"negcmp{j}", i, _rule(head, body[:j] + [f"not {m.group(1)} {neg[m.group(2)]} {m.group(3)}"] + body[j + 1:]))
+                if b.ast_type == ASTType.Literal and b.atom.ast_type == ASTType.SymbolicAtom and b.sign == Sign.NoSign and b.atom.symbol.ast_type == ASTType.Function:
+                    sym = b.atom.symbol
+                    for k, a in enumerate(sym.arguments[:3]):
+                        if a.ast_type == ASTType.Variable and a.name != "_":
+                            args = [str(x) for x in sym.arguments]
+                            others = (" ".join(body[:j] + body[j + 1:]) + " " + head)
+                            if re.search(r"\b" + a.name + r"\b", others):
+                                emit(f"arith{j}_{k}", i, _rule(head, body[:j] + [f"{sym.name}({','.join(args[:k] + [a.name + '+1'] + args[k + 1:])})"] + body[j + 1:]))
+                                emit(f"mul{j}_{k}", i, _rule(head, body[:j] + [f"{sym.name}({','.join(args[:k] + ['2*' + a.name] + args[k + 1:])})"] + body[j + 1:]))
+                            emit(f"const{j}_{k}", i, _rule(head, body[:j] + [f"{sym.name}({','.join(args[:k] + ['1'] + args[k + 1:])})"] + body[j + 1:]))
+                    if len(sym.arguments) >= 2:
+                        emit(f"samename{j}", i, _rule(head, body + [f"{sym.name}({str(sym.arguments[0])})"]))
                 if b.ast_type == ASTType.Literal and b.atom.ast_type == ASTType.BodyAggregate:
                     if b.sign == Sign.NoSign:
                         emit(f"negagg{j}", i, _rule(head, body[:j] + ["not " + body[j]] + body[j + 1:]))
@@ -117,6 +137,15 @@ def variants(text, max_per_program=60):
                     emit("weakvar", i, f":~ {'; '.join(body)}. [1@1,{vs[0]}]")
         elif s.ast_type == ASTType.Minimize:
             body = [str(b) for b in s.body]
+            mvars = []
+            for b in s.body:
+                mvars += _vars(b)
+            if s.weight.ast_type == ASTType.Variable:
+                emit("absweight", i, re.sub(r"\. \[" + s.weight.name + r"@", ". [|" + s.weight.name + "|@", base[i], count=1))
+            for v in dict.fromkeys(mvars):
+                if v != str(s.weight):
+                    emit(f"prio_{v}", i, re.sub(r"@[^,\]]+", "@" + v, base[i], count=1))
+                    break
             if len(body) > 1:
                 emit("reverse_min", i, re.sub(r"^:~ .*?\. \[", ":~ " + "; ".join(body[::-1]) + ". [", base[i], count=1))
             emit("dup_min", i, base[i], [re.sub(r"^:~ (.*?)\. \[", lambda m: ":~ " + m.group(1) + "; vy__. [", base[i], count=1)])
